@@ -162,4 +162,82 @@ def reachLoop (succ : Node → List Node) : Nat → List Node → List Node → 
 
 def reachR (L : Layout) (d : Db) (fuel : Nat) : List Node := reachLoop (succR d) fuel (roots L d) []
 
+/-! ### which manifest of the WAL is the current one
+
+  vacuum.rs `scan_wal_roots` and engine.rs `scan_recovery_state` both fold over the committed
+  transactions of the log, in order.  A ManifestSwitch is accepted when `epoch <cmp> state.manifest_epoch`
+  (both: `>=`), a Checkpoint refreshes the property / statistics roots when `epoch <cmp> state.manifest_epoch`
+  (both: `==`); the state starts at `Default` (epoch 0, no segments).  The comparison operators are
+  regenerated from BOTH sources (`Generated/Layout.lean`). -/
+
+inductive Rec where
+  | manifest (epoch : Nat) (segments : List Nat) (props stats : Nat)     -- WalRecord::ManifestSwitch
+  | checkpoint (upTo epoch props stats : Nat)                            -- WalRecord::Checkpoint
+  | other
+  deriving Repr, DecidableEq
+
+structure Tx where
+  txid : Nat
+  ops : List Rec
+  deriving Repr, DecidableEq
+
+structure ScanOps where
+  manifestCmp : String
+  checkpointCmp : String
+  initEpoch : Nat
+  deriving Repr, DecidableEq
+
+def cmpHolds (op : String) (a b : Nat) : Bool :=
+  if op == ">=" then decide (a ≥ b) else if op == ">" then decide (a > b) else if op == "==" then decide (a = b)
+  else if op == "<=" then decide (a ≤ b) else if op == "<" then decide (a < b) else if op == "!=" then decide (a ≠ b)
+  else false
+
+/-- vacuum.rs WalRoots -/
+structure VRoots where
+  epoch : Nat
+  segments : List Nat
+  props : Nat
+  stats : Nat
+  deriving Repr, DecidableEq
+
+/-- engine.rs RecoveryState -/
+structure ERoots where
+  epoch : Nat
+  segments : List Nat
+  ckptTxid : Nat
+  maxTxid : Nat
+  props : Nat
+  stats : Nat
+  deriving Repr, DecidableEq
+
+/-- one record of vacuum.rs scan_wal_roots -/
+def vacuumStep (o : ScanOps) (s : VRoots) : Rec → VRoots
+  | .manifest e segs p st => if cmpHolds o.manifestCmp e s.epoch then ⟨e, segs, p, st⟩ else s
+  | .checkpoint _ e p st => if cmpHolds o.checkpointCmp e s.epoch then { s with props := p, stats := st } else s
+  | .other => s
+
+def vacuumScan (o : ScanOps) (log : List Tx) : VRoots :=
+  log.foldl (fun s tx => tx.ops.foldl (vacuumStep o) s) ⟨o.initEpoch, [], 0, 0⟩
+
+/-- one record of engine.rs scan_recovery_state -/
+def engineStep (o : ScanOps) (s : ERoots) : Rec → ERoots
+  | .manifest e segs p st =>
+    if cmpHolds o.manifestCmp e s.epoch then { s with epoch := e, segments := segs, ckptTxid := 0, props := p, stats := st }
+    else s
+  | .checkpoint up e p st =>
+    if cmpHolds o.checkpointCmp e s.epoch then { s with ckptTxid := max s.ckptTxid up, props := p, stats := st } else s
+  | .other => s
+
+def engineScan (o : ScanOps) (log : List Tx) : ERoots :=
+  log.foldl (fun s tx => tx.ops.foldl (engineStep o) { s with maxTxid := max s.maxTxid tx.txid })
+    ⟨o.initEpoch, [], 0, 0, 0, 0⟩
+
+/-- what both scans are for: (segment meta pages, properties root, statistics root) -/
+def VRoots.roots (r : VRoots) : List Nat × Nat × Nat := (r.segments, r.props, r.stats)
+def ERoots.roots (r : ERoots) : List Nat × Nat × Nat := (r.segments, r.props, r.stats)
+
+/-- a database file seen with the roots a WAL scan selected -/
+def Db.withRoots (d : Db) (r : List Nat × Nat × Nat) : Db :=
+  { d with segments := r.1, propsRoot := r.2.1, statsRoot := r.2.2 }
+
 end Nervus.Vacuum
